@@ -83,6 +83,9 @@ def monitor(dev, hs_notes: dict, lifetime, uncompletable: set):
         if e.kind == "hs_req":
             if not hs_notes.get(idx, True):
                 return ("handshake/token", f"handshake request on connection {e.conn} carries a token other than the configured one")
+            if lifetime is not None and e.t - st_["opened"] > lifetime + SLACK:
+                # an exchange that starts after the lifetime elapsed starts on a new connection, also when it is an explicit authenticate
+                return ("expiry/lifetime-handshake", f"handshake request {e.t - st_['opened']:.0f} s after its connection was opened (lifetime {lifetime})")
             continue
         if e.kind == "undecodable":
             if not st_["answered"]:
@@ -361,7 +364,7 @@ def events(max_len: int):
         st.just(["send"]), st.just(["send"]), st.just(["send"]), st.just(["send_silent"]), st.just(["send_error"]), st.just(["send_close"]),
         st.just(["refuse"]), st.just(["auth_good"]), st.just(["auth_bad_token"]), st.just(["auth_bad_key"]), st.just(["auth_silent"]), st.just(["auth_refused"]), st.just(["send_garbled_hs"]),
         st.integers(0, 100).map(lambda x: ["sleep_12h", x]), st.integers(0, 100).map(lambda x: ["sleep_life", x]),
-        st.sampled_from([0.01, 0.5, 3.0, 29.0, 31.0, 599.0, 3600.0]).map(lambda x: ["sleep", x]), st.just(["reconfigure"]),
+        st.sampled_from([0.01, 0.5, 3.0, 29.0, 31.0, 599.0, 3600.0, 25200.0, 43000.0]).map(lambda x: ["sleep", x]), st.just(["reconfigure"]),
         st.tuples(st.sampled_from(phases), st.sampled_from([0.0, 0.01, -0.01]), st.sampled_from(["send", "send", "auth"])).map(lambda t: ["cancel", round(t[0] + t[1], 3), t[2]]),
     )
     body = st.lists(ev, min_size=1, max_size=max_len)
@@ -387,6 +390,13 @@ def run(ctx) -> None:
                 scripts.append({"config": {"lifetime": lifetime}, "events": [["auth_good"]] + [[p] for p in prefix] + [tail, ["auth_bad_key"], ["send"], ["send"]]})
                 scripts.append({"config": {"lifetime": lifetime}, "events": [["auth_good"]] + [[p] for p in prefix] + [tail, ["send_garbled_hs"], ["send"]]})
         scripts.append({"config": {"lifetime": lifetime}, "events": [["auth_good"], ["send"], ["reconfigure"], ["sleep_life", 0], ["send"], ["send"]]})
+        # traffic inside the 12 h window does not extend it: 7 h + 7 h after the handshake the next exchange re-authenticates
+        scripts.append({"config": {"lifetime": lifetime}, "events": [["auth_good"], ["send"], ["sleep", 25200.0], ["send"], ["sleep", 25200.0], ["send"], ["send"]]})
+        scripts.append({"config": {"lifetime": lifetime}, "events": [["auth_good"], ["sleep", 43000.0], ["send"], ["sleep", 300.0], ["send"], ["sleep", 43000.0], ["send"]]})
+        # the first exchange after an expiry is an explicit authenticate
+        scripts.append({"config": {"lifetime": lifetime}, "events": [["auth_good"], ["send"], ["sleep_life", 0], ["auth_good"], ["send"]]})
+        scripts.append({"config": {"lifetime": lifetime}, "events": [["auth_good"], ["send"], ["sleep_12h", 0], ["auth_good"], ["send"]]})
+        scripts.append({"config": {"lifetime": lifetime}, "events": [["auth_good"], ["sleep_life", 5], ["auth_bad_key"], ["send"]]})
         scripts.append({"config": {"lifetime": lifetime}, "events": [["auth_good"], ["send"], ["sleep", 10.0], ["reconfigure"], ["sleep", (lifetime or 30) - 5.0], ["send"], ["reconfigure"], ["send"]]})
         for first_ev in (["auth_silent"], ["auth_refused"], ["cancel", 0.02, "auth"], ["cancel", 0.5, "auth"], ["auth_bad_token"], ["auth_bad_key"]):
             scripts.append({"config": {"lifetime": lifetime}, "events": [first_ev, ["send"], ["auth_good"], ["send"]]})
